@@ -208,7 +208,7 @@ def fan_out(prop, tier, verif_seed, indices, nworkers, hash_base, cap, **extra):
 
 
 def load_known():
-    path = os.path.join(ROOT, "known_findings.json")
+    path = os.environ.get("VERIF_KNOWN_FINDINGS") or os.path.join(ROOT, "known_findings.json")   # env override: self-test only
     if not os.path.exists(path):
         return []
     with open(path) as f:
